@@ -241,6 +241,9 @@ PLANS["C14"] = {
     "stages": [
         T("indexcat", "indexcat", (60, 1500), ["InvC14"]),
         KV_LAWS, KV_APA, KV_KEYS,
+        # the catalog under concurrent creations and drops of one index: exactly one creation succeeds, and the
+        # history has a sequential explanation (TraceLin)
+        {"kind": "lin", "name": "lin-index", "n": (30, 900), "maxg": 3, "ops": 2, "family": "index", "backends": "bolt,badger,bolt", "chunk": 10, "seed_off": 71},
     ],
 }
 
@@ -464,6 +467,7 @@ PLANS["C07"] = {
         AUX("rwset", "rwset", (1, 1), module="TraceRW", invariants=["InvRW"], advisory=True, chunk=200),
         {"kind": "lin", "name": "lin", "n": (90, 3000), "maxg": 4, "ops": 3, "chunk": 10},
         {"kind": "lin", "name": "lin-wide", "n": (30, 1000), "maxg": 8, "ops": 3, "chunk": 5, "seed_off": 31},
+        {"kind": "lin", "name": "lin-index", "n": (15, 450), "maxg": 3, "ops": 2, "family": "index", "chunk": 15, "seed_off": 71},
         # the same programs on the bare adapters (no decorator between clover and the store, so code that asks a
         # transaction for optional interfaces behaves as in production); conflicts arise on their own
         {"kind": "lin", "name": "lin-raw", "n": (45, 1500), "maxg": 5, "ops": 3, "raw": True, "chunk": 9, "seed_off": 53},
